@@ -4,6 +4,9 @@
 From NG Require Import VM.Model Codec.BigintProofs VM.LimitsData VM.LimitsExec VM.LimitsOps VM.Total.
 Open Scope Z_scope.
 
+Section WithPtr.
+Context {PS : PtrSpec}.
+
 Definition frame_ok (f : frame) : Prop :=
   slot_ok (f_local f) /\ slot_ok (f_args f) /\ zlen (f_try f) <= MaxTryNestingDepth.
 Definition script_ok (sc : script) : Prop := slot_ok (sc_static sc) /\ Forall item_ok (sc_es sc).
@@ -135,12 +138,14 @@ Proof. destruct o; simpl; auto. Qed.
 Lemma do_ret_ok s : state_ok s -> xres_ok (do_ret s).
 Proof. intros K. unfold do_ret. pose proof (unload_ok true s K). destruct (unload true s); simpl; auto. Qed.
 
-Lemma exec_op_ok cip op p s : state_ok s -> param_ok p -> xres_ok (exec_op no_sys cip op p s).
+Lemma exec_op_ok cip op p s :
+  state_ok s -> param_ok p -> pusha_ok (mkEnv cip (prog_len s) (sc_sid (s_sc s))) op p ->
+  xres_ok (exec_op no_sys cip op p s).
 Proof.
-  intros K P.
+  intros K P PA.
   assert (DD : xres_ok (match exec_data (mkEnv cip (prog_len s) (sc_sid (s_sc s))) op p (view s) with
                | DOk d => XNext (unview s d) | DThrow e d => xopt (throw e (unview s d)) | DFault => XFault end)).
-  { pose proof (exec_data_ok (mkEnv cip (prog_len s) (sc_sid (s_sc s))) op p (view s) (view_ok _ K) P) as R.
+  { pose proof (exec_data_ok (mkEnv cip (prog_len s) (sc_sid (s_sc s))) op p (view s) (view_ok _ K) P PA) as R.
     destruct (exec_data _ op p (view s)) as [d|e d|]; simpl in R; [apply unview_ok; assumption| |exact I].
     destruct R. apply xopt_ok. intros s' E. eapply throw_ok; [| |exact E]; [apply unview_ok|]; assumption. }
   assert (JC : xres_ok (match jump_offset cip (prog_len s) p with
@@ -191,22 +196,28 @@ Proof. intros ((L & A & T) & Sc & Fs & O & H & X & D). repeat split; try assumpt
 
 Definition within_limits (s : state) : Prop := state_ok s /\ s_refs s <= MaxStackSize.
 
-Theorem step_limits s :
-  state_ok s ->
+(* the pointer condition has to hold for the target of the PUSHA about to be executed, if any *)
+Definition pusha_here (s : state) : Prop :=
+  forall op p next, decode (sc_prog (s_sc s)) (f_ip (s_fr s)) = DecOk op p next ->
+  pusha_ok (mkEnv (f_ip (s_fr s)) (prog_len s) (sc_sid (s_sc s))) op p.
+
+Theorem step_limits_gen s :
+  state_ok s -> pusha_here s ->
   match step s with
   | Running s' => within_limits s'
   | Halted s' => within_limits s'
   | Faulted _ => True
   end.
 Proof.
-  intros K. unfold step, step_with.
+  intros K PH. unfold step, step_with.
   assert (P : forall g r, xres_ok r ->
               match post g r with Running s' => within_limits s' | Halted s' => within_limits s' | Faulted _ => True end).
   { intros g r R. destruct r; simpl; try exact I; case_if; try exact I; split; try assumption; lia. }
   destruct (decode (sc_prog (s_sc s)) (f_ip (s_fr s))) as [| |op p next] eqn:D; [|exact I|].
   - apply P. apply do_ret_ok; assumption.
-  - case_if; [exact I|]. apply P. apply exec_op_ok; [apply set_gas_ip_ok; assumption|].
-    eapply decode_param_ok; eauto.
+  - case_if; [exact I|]. apply P. apply exec_op_ok; [apply set_gas_ip_ok; assumption| |].
+    + eapply decode_param_ok; eauto.
+    + exact (PH op p next D).
 Qed.
 
 Lemma init_state_ok prog sid base limit : state_ok (init_state prog sid base limit).
@@ -214,12 +225,29 @@ Proof.
   repeat split; simpl; try constructor; try exact I; vm_compute; discriminate.
 Qed.
 
-(* along any execution from a loaded script *)
+End WithPtr.
+
+(* ---------- the size limits proper: nothing is asked of Pointer items ---------- *)
+#[local] Instance any_ptr : PtrSpec := fun _ _ => True.
+Definition size_ok : item -> Prop := @item_ok any_ptr.
+Definition heap_size_ok : heap -> Prop := @heap_ok any_ptr.
+Definition limits_ok : state -> Prop := @state_ok any_ptr.
+
+Theorem step_limits s :
+  limits_ok s ->
+  match step s with
+  | Running s' => limits_ok s' /\ s_refs s' <= MaxStackSize
+  | Halted s' => limits_ok s' /\ s_refs s' <= MaxStackSize
+  | Faulted _ => True
+  end.
+Proof. intros K. apply (step_limits_gen s K). intros op p next _ off _ _. exact I. Qed.
+
+(* along any execution *)
 Theorem run_limits : forall n s,
-  state_ok s ->
+  limits_ok s ->
   match run n s with
-  | Running s' => state_ok s'
-  | Halted s' => within_limits s'
+  | Running s' => limits_ok s'
+  | Halted s' => limits_ok s' /\ s_refs s' <= MaxStackSize
   | Faulted _ => True
   end.
 Proof.
@@ -230,14 +258,22 @@ Qed.
 
 Theorem run_limits_init n prog sid base limit :
   match run n (init_state prog sid base limit) with
-  | Running s' => state_ok s'
-  | Halted s' => state_ok s' /\ s_refs s' <= MaxStackSize
+  | Running s' => limits_ok s'
+  | Halted s' => limits_ok s' /\ s_refs s' <= MaxStackSize
   | Faulted _ => True
   end.
 Proof. apply run_limits. apply init_state_ok. Qed.
 
-(* what state_ok says, spelled out on the executing context *)
-Theorem state_ok_meaning s : state_ok s ->
+(* what limits_ok says, spelled out on the executing context *)
+Theorem limits_ok_meaning s : limits_ok s ->
   depth s <= MaxInvocationStackSize /\ zlen (f_try (s_fr s)) <= MaxTryNestingDepth /\
-  Forall item_ok (final_stack s) /\ heap_ok (s_heap s).
+  Forall size_ok (final_stack s) /\ heap_size_ok (s_heap s).
 Proof. intros (F & Sc & _ & _ & H & _ & D). repeat split; try assumption; [apply F|apply Sc]. Qed.
+
+(* size_ok / heap_size_ok unfolded *)
+Lemma size_ok_int z : size_ok (IInt z) <-> - 2 ^ 255 <= z < 2 ^ 255.
+Proof. unfold size_ok; simpl. unfold in_int256. rewrite andb_true_iff, Z.leb_le, Z.ltb_lt. tauto. Qed.
+Lemma size_ok_bytes bs : size_ok (IBytes bs) <-> zlen bs <= MaxItemSize.
+Proof. reflexivity. Qed.
+Lemma heap_size_ok_buf h l bs : heap_size_ok h -> hget h l = Some (CBuf bs) -> zlen bs <= MaxItemSize.
+Proof. intros H E. exact (hget_ok h l _ H E). Qed.
